@@ -3,6 +3,7 @@
 package node
 
 import (
+	"ergo.services/ergo/gen"
 	"ergo.services/ergo/lib"
 )
 
@@ -19,4 +20,136 @@ func VerifC06MakeRef() {
 	r2 := n.MakeRef()
 	lib.VerifReach("both refs made")
 	lib.VerifAssert(r1 != r2, "refs never repeat")
+}
+
+// VerifC06Release: a symbolic history of registry operations by one process (names, aliases,
+// events, links and monitors as requester), then the real unregisterProcess. Afterwards nothing
+// may resolve to it, every identity can be claimed again, and it appears in no relation.
+func VerifC06Release() {
+	k := lib.VerifParam("ops", 4)
+	n := vfNode()
+	p, _ := vfProc(n, 2000, "", gen.ProcessStateRunning, 0)
+	q, _ := vfProc(n, 2001, "other", gen.ProcessStateRunning, 0)
+	var created []gen.Alias
+	var live []gen.Alias
+	names := []gen.Atom{"a", "b"}
+	for i := 0; i < k; i++ {
+		switch lib.VerifPick("op", 8) {
+		case 0:
+			err := p.RegisterName(names[lib.VerifPick("name", 2)])
+			if err == nil {
+				v, ok := n.names.Load(p.name)
+				lib.VerifAssert(ok && v.(*process) == p, "a registered name resolves to its owner")
+			}
+		case 1:
+			p.UnregisterName()
+		case 2:
+			if len(created) < 3 {
+				a, err := p.CreateAlias()
+				lib.VerifAssert(err == nil, "alias created")
+				for _, o := range created {
+					lib.VerifAssert(o != a, "aliases are never repeated")
+				}
+				created = append(created, a)
+				live = append(live, a)
+			}
+		case 3:
+			if len(live) > 0 {
+				j := lib.VerifPick("which", len(live))
+				err := p.DeleteAlias(live[j])
+				lib.VerifAssert(err == nil, "own alias deleted")
+				live = append(live[:j:j], live[j+1:]...)
+			}
+		case 4:
+			p.RegisterEvent("ev", gen.EventOptions{})
+		case 5:
+			p.UnregisterEvent("ev")
+		case 6:
+			p.LinkPID(q.pid)
+		case 7:
+			p.MonitorProcessID(gen.ProcessID{Name: "other", Node: n.name})
+		}
+		// at any moment every live alias resolves to its owner, deleted ones to nobody
+		for _, a := range created {
+			v, ok := n.aliases.Load(a)
+			isLive := false
+			for _, l := range live {
+				isLive = isLive || l == a
+			}
+			lib.VerifAssert(ok == isLive && (!ok || v.(*process) == p), "an alias resolves to its owner exactly while it exists")
+		}
+	}
+	name := p.name
+	p.state = int32(gen.ProcessStateTerminated)
+	n.unregisterProcess(p, gen.TerminateReasonNormal)
+	lib.VerifReach("terminated")
+
+	_, ok := n.processes.Load(p.pid)
+	lib.VerifAssert(!ok, "a terminated process is absent from the process table")
+	for _, nm := range names {
+		if v, ok := n.names.Load(nm); ok {
+			lib.VerifAssert(v.(*process) != p, "no name resolves to a terminated process")
+		}
+	}
+	for _, a := range created {
+		_, ok := n.aliases.Load(a)
+		lib.VerifAssert(!ok, "no alias resolves to a terminated process")
+	}
+	_, ok = n.events.Load(gen.Event{Name: "ev", Node: n.name})
+	lib.VerifAssert(!ok, "events of a terminated process are gone")
+	links, mons := n.targetManager.GetTargetsForConsumer(p.pid)
+	lib.VerifAssert(len(links) == 0 && len(mons) == 0, "a terminated process appears in no relation as requester")
+	lib.VerifAssert(len(n.targetManager.GetConsumersForTarget(p.pid)) == 0, "a terminated process appears in no relation as target")
+	if name != "" {
+		lib.VerifAssert(q.UnregisterName() == nil && q.RegisterName(name) == nil, "the name of a terminated process can be claimed again")
+	}
+	_, err := q.RegisterEvent("ev", gen.EventOptions{})
+	lib.VerifAssert(err == nil, "the event name of a terminated process can be claimed again")
+}
+
+// VerifC06Unique: claims of one name (and one event name) by two processes in a symbolic order:
+// exactly one claimant holds it at any time and the table resolves to that one.
+func VerifC06Unique() {
+	k := lib.VerifParam("ops", 4)
+	n := vfNode()
+	ps := [2]*process{}
+	ps[0], _ = vfProc(n, 2000, "", gen.ProcessStateRunning, 0)
+	ps[1], _ = vfProc(n, 2001, "", gen.ProcessStateRunning, 0)
+	owner := -1
+	evOwner := -1
+	for i := 0; i < k; i++ {
+		c := lib.VerifPick("who", 2)
+		switch lib.VerifPick("op", 4) {
+		case 0:
+			free := owner == -1
+			err := ps[c].RegisterName("x")
+			lib.VerifAssert((err == nil) == free, "a name is granted exactly when nobody holds it")
+			if err == nil {
+				owner = c
+			} else {
+				lib.VerifAssert(err == gen.ErrTaken, "the losing claimant gets ErrTaken")
+			}
+		case 1:
+			if ps[c].UnregisterName() == nil && owner == c {
+				owner = -1
+			}
+		case 2:
+			_, err := ps[c].RegisterEvent("e", gen.EventOptions{})
+			if err == nil {
+				lib.VerifAssert(evOwner == -1, "an event name is granted to exactly one claimant")
+				evOwner = c
+			} else {
+				lib.VerifAssert(evOwner != -1 && err == gen.ErrTaken, "a taken event name is refused with ErrTaken")
+			}
+		case 3:
+			err := ps[c].UnregisterEvent("e")
+			if err == nil {
+				lib.VerifAssert(evOwner == c, "only the owner can unregister an event")
+				evOwner = -1
+			}
+		}
+		v, ok := n.names.Load(gen.Atom("x"))
+		lib.VerifAssert(ok == (owner != -1) && (!ok || v.(*process) == ps[owner]), "the name table resolves to the one owner")
+	}
+	lib.VerifReach("history done")
 }
